@@ -130,8 +130,8 @@ impl Outer {
     pub fn is_segwit(&self) -> bool { !matches!(self, Outer::Pkh | Outer::Sh | Outer::BarePk) }
 }
 
-pub const N_MS_TEMPLATES: usize = 12;
-pub const N_LEAF_TEMPLATES: usize = 5;
+pub const N_MS_TEMPLATES: usize = 14;
+pub const N_LEAF_TEMPLATES: usize = 6;
 
 /// Miniscript templates for P2WSH / P2SH contexts; `k(i)` prints the i-th key of the instance.
 fn ms_template(t: usize, k: &dyn Fn(usize) -> String, older: u32, after: u32, hx: &[String; 4]) -> (String, Pol, usize) {
@@ -163,7 +163,7 @@ fn ms_template(t: usize, k: &dyn Fn(usize) -> String, older: u32, after: u32, hx
             Pol::Thresh(2, vec![Pol::Key(0), Pol::Key(1), Pol::Older(older)]),
             2,
         ),
-        _ => (
+        11 => (
             format!("or_d(multi(1,{},{}),and_v(v:pk({}),after({})))", k(0), k(1), k(2), after),
             Pol::Or(vec![
                 Pol::Thresh(1, vec![Pol::Key(0), Pol::Key(1)]),
@@ -171,11 +171,17 @@ fn ms_template(t: usize, k: &dyn Fn(usize) -> String, older: u32, after: u32, hx
             ]),
             3,
         ),
+        12 => (
+            format!("or_d(pk({}),and_v(v:pkh({}),older({})))", k(0), k(1), older),
+            Pol::Or(vec![Pol::Key(0), Pol::And(vec![Pol::Key(1), Pol::Older(older)])]),
+            2,
+        ),
+        _ => (format!("pkh({})", k(0)), Pol::Key(0), 1),
     }
 }
 
 /// templates usable under P2SH (no or_i / d: wrappers)
-pub const LEGACY_TEMPLATES: [usize; 5] = [0, 1, 2, 3, 4];
+pub const LEGACY_TEMPLATES: [usize; 7] = [0, 1, 2, 3, 4, 9, 12];
 
 fn leaf_template(t: usize, k: &dyn Fn(usize) -> String, older: u32, after: u32, hx: &[String; 4]) -> (String, Pol, usize) {
     match t {
@@ -187,7 +193,8 @@ fn leaf_template(t: usize, k: &dyn Fn(usize) -> String, older: u32, after: u32, 
             3,
         ),
         3 => (format!("and_v(v:pk({}),sha256({}))", k(0), hx[0]), Pol::And(vec![Pol::Key(0), Pol::Hash(0)]), 1),
-        _ => (format!("and_v(v:pk({}),after({}))", k(0), after), Pol::And(vec![Pol::Key(0), Pol::After(after)]), 1),
+        4 => (format!("and_v(v:pk({}),after({}))", k(0), after), Pol::And(vec![Pol::Key(0), Pol::After(after)]), 1),
+        _ => (format!("and_v(v:pkh({}),pk({}))", k(0), k(1)), Pol::And(vec![Pol::Key(0), Pol::Key(1)]), 2),
     }
 }
 
